@@ -493,6 +493,9 @@ def c13(ctx):
     ctx.model_check("LockProto.tla", "cfg/lock_verify.cfg" if q else "cfg/lock_verify_deaths.cfg", timeout=1800)
     ctx.model_check("LockProto.tla", "cfg/lock_pinned.cfg", expect_violation="AtMostOneHolder", timeout=600)
     ctx.model_check("LockProto.tla", "cfg/lock_verify_recover.cfg", expect_violation="MustRecover", timeout=600)
+    # exit paths of Close: a Close that fails keeps the lock file, so the next Open recovers; one that removes it must be refuted
+    ctx.model_check("WalClose.tla", "cfg/wal_close_q.cfg" if q else "cfg/wal_close_t.cfg", timeout=3000)
+    ctx.model_check("WalClose.tla", "cfg/wal_close_unlocks.cfg", expect_violation="Represents", timeout=600)
     os.makedirs(ctx.path("tmp/lk"), exist_ok=True)
     nsh = CORES
     jobs, outs = [], []
